@@ -331,6 +331,8 @@ func checkC20(c *Ctx, r *Report) {
 		r.Check(got[2] == "sext8", "analog format 2 (two's complement)", g.Pos(), got[2], "two's-complement parser is not a sign-extension of the byte")
 	}
 
+	checkTwosPrimitive(c, r)
+
 	r.Rule("bcd-normal-form", "bcd.Decode(b) = 10·b[7:4] + b[3:0]", 1)
 	if f := c.Func("internal/pkg/bcd", "Decode"); f == nil {
 		r.Lost("bcd.Decode")
